@@ -609,7 +609,7 @@ var Prop = &harness.Prop{
 		for i, top := range limbAlphabet(8, tier) {
 			u = append(u, limbUnit(top, i, tier))
 		}
-		u = append(u, miscUnit(), extremePointsUnit())
+		u = append(u, miscUnit(), extremePointsUnit(), montPointsUnit(tier == "thorough"))
 		return u
 	},
 }
